@@ -99,6 +99,7 @@ def extract(query, choices, *, scorer=None, processor=None, limit=5, score_cutof
     per choice by forking (each is one solver query); ordering by score forks as well."""
     if scorer is None:
         raise NotImplementedError("model covers distance scorers only")
+    CALLS.append(("extract", {"limit": limit, "score_cutoff": score_cutoff}))
     kw = dict(scorer_kwargs or {})
     scored = []
     for idx in range(len(choices)):
